@@ -35,9 +35,12 @@ if ! git -C /repo apply $PATCH 2>/dev/null; then
   if ! git -C /repo apply --3way $PATCH 2>/dev/null; then echo "PATCH DOES NOT APPLY TO /repo HEAD (write $OUT/patch_adapted_to_head.diff)"; git -C /repo reset -q --hard HEAD; exit 3; fi
   git -C /repo reset -q 2>/dev/null
 fi
+# evidence files describe the UNCHANGED tree: keep them out of the way of runs on the changed tree
+EVBAK=$(mktemp -d /tmp/evidence_bak.XXXXXX); cp -a evidence/. "$EVBAK"/
 for c in $CHECKS; do
   out=$(./check $c --tier quick 2>&1); code=$?
   echo "--- $c exit=$code"; echo "$out" | grep -E "^VIOLATION|signature:|held|MACHINERY" | cut -c1-220 | head -8
 done
 git -C /repo checkout -- . ; git -C /repo status --short
+rm -rf evidence; mkdir -p evidence; cp -a "$EVBAK"/. evidence/; rm -rf "$EVBAK"
 find /verif/replays -name '*.json' -delete
